@@ -1081,3 +1081,165 @@ func ruleTOCEntryPerHeading(r *Run) {
 	}
 	r.Min("toc_entry_loops", n, 1)
 }
+
+// ---------------------------------------------------------------------------
+// R-SCOPE-PRECEDENCE (C16, C18): inside a loop the item's own fields take precedence over the
+// variables of the enclosing data.  Where a fresh map is filled both from some other map (the
+// item) and, in a range loop, from TemplateData.Variables, the copy from Variables must not be
+// able to overwrite what the item wrote: it comes first, or each of its writes is guarded by a
+// look-up in the map being filled.
+// ---------------------------------------------------------------------------
+
+func ruleScopePrecedence(r *Run) {
+	p := r.P
+	n := 0
+	for _, fn := range p.ModFuncs() {
+		if fn.Pkg == nil || fn.Pkg.Pkg.Path() != pkgDoc {
+			continue
+		}
+		type fill struct {
+			mu      *ssa.MapUpdate
+			fromVar bool
+			guarded bool
+		}
+		byMap := map[ssa.Value][]fill{}
+		loops := naturalLoops(fn)
+		for _, l := range loops {
+			ri := rangeOf(l)
+			if ri == nil {
+				continue
+			}
+			if _, isMap := ri.X.Type().Underlying().(*types.Map); !isMap {
+				continue
+			}
+			fromVar := false
+			if ch, _ := addrChain(stripLoadsAddr(ri.X)); len(ch) > 0 && fieldIs(p, ch[len(ch)-1], pkgDoc, "TemplateData", "Variables") {
+				fromVar = true
+			}
+			for b := range l.Body {
+				for _, in := range b.Instrs {
+					mu, ok := in.(*ssa.MapUpdate)
+					if !ok {
+						continue
+					}
+					if _, fresh := stripConv(mu.Map).(*ssa.MakeMap); !fresh {
+						continue
+					}
+					// guarded: some block of the loop that dominates the update tests a look-up in the same map
+					guarded := false
+					for b2 := range l.Body {
+						if b2 == l.Header || !b2.Dominates(b) || len(b2.Instrs) == 0 {
+							continue
+						}
+						iff, ok := b2.Instrs[len(b2.Instrs)-1].(*ssa.If)
+						if !ok {
+							continue
+						}
+						var walk func(v ssa.Value, d int) bool
+						walk = func(v ssa.Value, d int) bool {
+							if d > 4 {
+								return false
+							}
+							switch x := v.(type) {
+							case *ssa.Extract:
+								return walk(x.Tuple, d+1)
+							case *ssa.Lookup:
+								return x.X == mu.Map
+							case *ssa.UnOp:
+								return walk(x.X, d+1)
+							case *ssa.BinOp:
+								return walk(x.X, d+1) || walk(x.Y, d+1)
+							}
+							return false
+						}
+						if walk(iff.Cond, 0) {
+							guarded = true
+						}
+					}
+					byMap[mu.Map] = append(byMap[mu.Map], fill{mu, fromVar, guarded})
+				}
+			}
+		}
+		for m, fills := range byMap {
+			var vars, items []fill
+			for _, f := range fills {
+				if f.fromVar {
+					vars = append(vars, f)
+				} else {
+					items = append(items, f)
+				}
+			}
+			if len(vars) == 0 || len(items) == 0 {
+				continue
+			}
+			n++
+			okAll := true
+			var bad *ssa.MapUpdate
+			for _, v := range vars {
+				if v.guarded {
+					continue
+				}
+				for _, it := range items {
+					// the item's write can be followed by the variables' write
+					if it.mu.Block() != v.mu.Block() && reachableBlocks(it.mu.Block(), nil)[v.mu.Block()] && !reachableBlocks(v.mu.Block(), nil)[it.mu.Block()] {
+						okAll, bad = false, v.mu
+					}
+				}
+			}
+			pos := m.Pos()
+			if bad != nil {
+				pos = bad.Pos()
+			}
+			r.Check("scope-precedence", shortName(topLevel(fn)), pos, okAll,
+				fmt.Sprintf("%s fills one scope map from a loop item and from TemplateData.Variables: %s", shortName(topLevel(fn)),
+					map[bool]string{true: "the item's fields are written last or the outer variables only fill gaps", false: "the outer variables are written after the item's fields and overwrite them — a placeholder named like a document-level variable shows that variable in every expanded row instead of the item's value"}[okAll]))
+		}
+	}
+	r.Count("scope_maps_filled_from_item_and_variables", n)
+}
+
+// ---------------------------------------------------------------------------
+// R-PARSE-CONTEXT-FRESH (C19): goldmark keeps link reference definitions and heading ids in the
+// parser.Context of a Parse call.  A context handed to Parse (parser.WithContext) must be created
+// for that call; one that is loaded from a field or a package-level variable carries the
+// definitions of earlier conversions into later ones ("[label]" then turns into a link and its
+// brackets disappear from the text).
+// ---------------------------------------------------------------------------
+
+func ruleParseContextFresh(r *Run) {
+	p := r.P
+	n := 0
+	for _, fn := range p.ModFuncs() {
+		if fn.Pkg == nil || fn.Pkg.Pkg.Path() != pkgMd {
+			continue
+		}
+		allInstrs(fn, func(in ssa.Instruction) {
+			c, ok := in.(*ssa.Call)
+			if !ok || !strings.HasSuffix(calleeName(c), "goldmark/parser.WithContext") || len(c.Call.Args) != 1 {
+				return
+			}
+			n++
+			fresh := false
+			v := c.Call.Args[0]
+			for i := 0; i < 4; i++ {
+				if mi, ok := v.(*ssa.MakeInterface); ok {
+					v = mi.X
+					continue
+				}
+				if ci, ok := v.(*ssa.ChangeInterface); ok {
+					v = ci.X
+					continue
+				}
+				break
+			}
+			if c2, ok := v.(*ssa.Call); ok && strings.HasSuffix(calleeName(c2), "goldmark/parser.NewContext") && c2.Parent() == fn {
+				// created in this call — and not inside an initialise-once branch
+				fresh = true
+			}
+			r.Check("parse-context-fresh", shortName(topLevel(fn)), c.Pos(), fresh,
+				fmt.Sprintf("%s hands a parser.Context to goldmark's Parse: %s", shortName(topLevel(fn)),
+					map[bool]string{true: "it is created by parser.NewContext() in the same call", false: "it is not created for this call (loaded from a field, a variable or a parameter) — link reference definitions of an earlier conversion stay alive and change how the next text is parsed"}[fresh]))
+		})
+	}
+	r.Count("parse_contexts_handed_to_goldmark", n)
+}
